@@ -183,7 +183,7 @@ namespace pika::thread_pool_bulk_detail {
             {
                 operation_state* const op_state;
                 Shape const n;
-                std::uint32_t const chunk_size;
+                std::uint64_t const chunk_size;
                 std::uint32_t const worker_thread;
 
                 // Visit the values sent by the predecessor sender.
@@ -258,11 +258,16 @@ namespace pika::thread_pool_bulk_detail {
             // a total number of items n. Returns a power-of-2 chunk
             // size that produces at most 8 and at least 4 chunks per
             // worker thread.
-            static constexpr std::uint32_t get_chunk_size(
+            // The chunk size is computed in 64 bits: shapes of 2^32 and more would otherwise be
+            // truncated (no chunk would be created at all) and the 32-bit product below would
+            // wrap around for shapes above 2^31, so that the loop would not terminate. On exit
+            // chunk_size * num_threads * 8 >= n, i.e. there are at most 8 * num_threads + 1
+            // chunks, which always fits the 32-bit index queues.
+            static constexpr std::uint64_t get_chunk_size(
                 std::uint32_t const num_threads, Shape const n)
             {
-                std::uint32_t chunk_size = 1;
-                while (chunk_size * num_threads * 8 < static_cast<std::uint32_t>(n))
+                std::uint64_t chunk_size = 1;
+                while (chunk_size * num_threads * 8 < static_cast<std::uint64_t>(n))
                 {
                     chunk_size *= 2;
                 }
@@ -282,7 +287,7 @@ namespace pika::thread_pool_bulk_detail {
 
             // Spawn a task which will process a number of chunks. If
             // the queue contains no chunks no task will be spawned.
-            void do_work_task(Shape const n, std::uint32_t const chunk_size,
+            void do_work_task(Shape const n, std::uint64_t const chunk_size,
                 std::uint32_t const worker_thread) const
             {
                 task_function task_f{this->op_state, n, chunk_size, worker_thread};
@@ -325,7 +330,7 @@ namespace pika::thread_pool_bulk_detail {
             // from the predecessor sender. This thread participates in
             // the work and does not need a new task since it already
             // runs on a task.
-            void do_work_local(Shape n, std::uint32_t chunk_size, std::uint32_t worker_thread) const
+            void do_work_local(Shape n, std::uint64_t chunk_size, std::uint32_t worker_thread) const
             {
                 task_function{this->op_state, n, chunk_size, worker_thread}();
             }
@@ -357,7 +362,7 @@ namespace pika::thread_pool_bulk_detail {
                 for (std::size_t worker_thread = 0; worker_thread < r.op_state->num_worker_threads;
                      ++worker_thread)
                 {
-                    r.init_queue(worker_thread, num_chunks);
+                    r.init_queue(worker_thread, static_cast<std::uint32_t>(num_chunks));
                 }
 
                 // Spawn the worker threads for all except the local queue.
